@@ -10,6 +10,8 @@
 //!   hfc2 <hf2 args, other shape = capsule>   2-D HeightField-vs-capsule history (`contact_manifolds_heightfield_shape`) with user-data
 //!                               tags; observed per call: the cells `map_elements_in_local_aabb` reports (id, a, b)
 //!   ee3 pos12 e1a e1b e2a e2b sep flipped   `PolygonalFeature::contacts` on two 2-vertex features (edge/edge): npts (p1 p2 dist)*
+//!   pfmg3 kind a b pred pos12  `contact_manifold_pfm_pfm` on a fresh manifold; observed: the GJK answer and the two support features
+//!                               (when both are edges) → the manifold
 //!   pfm3 kind a b pred nposes pose*   pose history of a pfm/pfm pair whose support features are EDGES (capsule / cylinder /
 //!                               cone / segment sides): one-shot reference ;; manifold after every call (oracle only)
 use super::*;
@@ -166,6 +168,35 @@ fn hfc2(a: &mut Args) -> String {
     format!("{};; {}", obs, out.trim_end())
 }
 
+/// one fresh `contact_manifold_pfm_pfm` call with the GJK answer and the support features observed from the public API
+fn pfmg3(a: &mut Args) -> String {
+    use crate::p3::query::gjk::{GJKResult, VoronoiSimplex};
+    use crate::p3::shape::PolygonalFeature;
+    let kind = a.u(); let sa = d3::v(a); let sb = d3::v(a); let pred = a.f();
+    let p = d3::iso(a);
+    let (s1, s2) = shapes_pfm3(kind, sa, sb);
+    let (pfm1, br1) = s1.as_polygonal_feature_map().unwrap();
+    let (pfm2, br2) = s2.as_polygonal_feature_map().unwrap();
+    let gjk = crate::p3::query::details::contact_support_map_support_map_with_params(&p, pfm1, pfm2, pred + br1 + br2, &mut VoronoiSimplex::new(), None);
+    let obs = match gjk {
+        GJKResult::ClosestPoints(p1, p2_1, dir) => {
+            let n2 = p.inverse_transform_unit_vector(&-dir);
+            let mut f1 = PolygonalFeature::default(); let mut f2 = PolygonalFeature::default();
+            pfm1.local_support_feature(&dir, &mut f1);
+            pfm2.local_support_feature(&n2, &mut f2);
+            if f1.num_vertices == 2 && f2.num_vertices == 2 {
+                format!("1 {} {} {} {} {} {} {} {} {}", d3::fp(&p1), d3::fp(&p2_1), d3::fv(&dir), d3::fp(&f1.vertices[0]), d3::fp(&f1.vertices[1]),
+                    d3::fp(&f2.vertices[0]), d3::fp(&f2.vertices[1]), ff(br1), ff(br2))
+            } else { "0".into() }
+        }
+        _ => "0".into(),
+    };
+    if obs == "0" { return "0 ;; skip".into(); }
+    let mut m = M3::new();
+    crate::p3::query::details::contact_manifold_pfm_pfm(&p, pfm1, br1, None, pfm2, br2, None, pred, &mut m);
+    format!("{} ;; {}", obs, fman3(&m))
+}
+
 pub fn exec(func: &str, a: &mut Args) -> String {
     match func {
         "css3" => { let a1 = d3::p(a); let b1 = d3::p(a); let a2 = d3::p(a); let b2 = d3::p(a);
@@ -177,6 +208,7 @@ pub fn exec(func: &str, a: &mut Args) -> String {
                 None => "none".into(),
                 Some((ca, cb)) => format!("some {} {}", fclip2(&ca), fclip2(&cb)) } }
         "cc3" => cc3(a),
+        "pfmg3" => pfmg3(a),
         "hfc2" => hfc2(a),
         "ee3" => { use crate::p3::shape::{PolygonalFeature, Segment};
             let p = d3::iso(a);
@@ -442,5 +474,13 @@ pub fn gen(r: &mut Rng, thorough: bool) -> Vec<(String, String)> {
     }
     for it in 0..800 * k { v.push(gen_cap3(r, it % 2 == 0, match it % 8 { 0 | 1 | 2 | 3 => 0, 4 => 1, 5 | 6 => 2, _ => 3 })); }
     for it in 0..40 * k { for kind in 0..9 { v.push(gen_pfm3(r, it % 2 == 0, kind, 12)); } }
+    for it in 0..80 * k { for kind in 0..9 {
+        // single fresh calls of the same family, with the GJK answer observed: the model leg of pfm/pfm's contact assembly
+        let (_, args) = gen_pfm3(r, it % 2 == 0, kind, 6);
+        let t: Vec<&str> = args.split_whitespace().collect();
+        let n: usize = t[8].parse().unwrap();
+        let j = r.below(n as u64) as usize;
+        v.push(("pfmg3".into(), format!("{} {}", t[..8].join(" "), t[9 + 7 * j..16 + 7 * j].join(" "))));
+    } }
     v
 }
